@@ -11,7 +11,7 @@ import json
 from vlib import common, histcheck, miri
 
 MODULE = "TriompheModel.Props.C03"
-EXTRA = ["TriompheModel.Props.C03Sched", "TriompheModel.Props.Gates", "TriompheModel.WM.Later", "TriompheModel.Props.Monitor", "TriompheModel.Props.ApiShape"]
+EXTRA = ["TriompheModel.Props.C03Sched", "TriompheModel.Props.Gates", "TriompheModel.WM.Later", "TriompheModel.Props.Monitor", "TriompheModel.Props.ApiShape", "TriompheModel.Props.C03Programs"]
 TAGS = ["C03"]
 WEIGHTS = dict(isUnique=12, getMut=12, getUnique=8, tryUnique=10, tryUnwrap=6, writeSlot=10, cb=14, makeMut=6, clone=16, conv=14)
 PROGRAMS_QUICK = ["poll_get_mut_write", "sole_owner_gates"]
